@@ -185,6 +185,12 @@ func VerifyEncShareBatch(
 	}
 
 	for i := range X {
+		// The global challenge commits to the evaluations of the commitment
+		// polynomial at 1..n by position, so the share at position i must
+		// carry index i; the index itself is covered by no proof.
+		if encShares[i].S.I != uint32(i) {
+			continue
+		}
 		if err := VerifyEncShare(suite, H, X[i], sH[i], expGlobalChallenge, encShares[i]); err == nil {
 			K = append(K, X[i])
 			E = append(E, encShares[i])
